@@ -99,9 +99,9 @@ def pyInt16Body (cs : List Char) : Option Nat :=
 /-- `int(s, 16)` -/
 def pyInt16 (s : String) : Option Int :=
   match pyStrip s.toList with
-  | '-' :: cs => (pyInt16Body cs).map (fun n => -(n : Int))
-  | '+' :: cs => (pyInt16Body cs).map (fun n => (n : Int))
-  | cs => (pyInt16Body cs).map (fun n => (n : Int))
+  | '-' :: cs => Option.map (fun n : Nat => -(n : Int)) (pyInt16Body cs)
+  | '+' :: cs => Option.map (fun n : Nat => (n : Int)) (pyInt16Body cs)
+  | cs => Option.map (fun n : Nat => (n : Int)) (pyInt16Body cs)
 
 /-- `int(s)` (white space around the number is ignored) -/
 def pyInt10 (s : String) : Option Int := pyInt (String.ofList (pyStrip s.toList))
@@ -219,22 +219,23 @@ def hwif (env : Env) (net : Network) (n : NodeObj) (asPrivate : Bool) : Except E
 
 /-! ## the parsers (`ParseAPI`) -/
 
-/-- `ParseAPI.wif` -/
+/-- `keys.private(se, is_compressed)` inside `try … except ValueError: return None` -/
+def wifKey (ke : KeyEnv) (blob : Bytes) (c : Bool) : POut :=
+  match mkPrivateKey ke (beNat blob) c with
+  | .ok k => .ok (some (.key k))
+  | .error .invalidSecretExponent => .ok none
+  | .error .invalidPublicPair => .ok none
+  | .error e => .error e
+
+/-- `ParseAPI.wif`: 33 bytes ending in `01` (compressed) or 32 bytes after the prefix -/
 def parseWif (env : Env) (ke : KeyEnv) (net : Network) (s : String) : POut :=
   match parseB58Hashed env net s, net.parseWif with
   | some data, some p =>
     if !isPrefixOf p data then .ok none
-    else
-      let body := data.drop p.length
-      let go (blob : Bytes) (c : Bool) : POut :=
-        match mkPrivateKey ke (beNat blob) c with
-        | .ok k => .ok (some (.key k))
-        | .error .invalidSecretExponent => .ok none      -- `except ValueError`
-        | .error .invalidPublicPair => .ok none
-        | .error e => .error e
-      if body.length = 33 ∧ body.drop 32 = [1] then go (body.take 32) true
-      else if body.length = 32 then go body false
-      else .ok none
+    else if (data.drop p.length).length = 33 ∧ (data.drop p.length).drop 32 = [1] then
+      wifKey ke ((data.drop p.length).take 32) true
+    else if (data.drop p.length).length = 32 then wifKey ke (data.drop p.length) false
+    else .ok none
   | _, _ => .ok none
 
 /-- `ParseAPI.secret_exponent` -/
